@@ -12,12 +12,14 @@ ID = "C16"
 REACH_TARGETS = [('Adapter.transform', 'formak.python:SklearnEKFAdapter.transform'), ('Adapter.score', 'formak.python:SklearnEKFAdapter.score'), ('Adapter.mahalanobis', 'formak.python:SklearnEKFAdapter.mahalanobis')]
 LEVEL = "exploration"
 RULE = ("random contractive filter definitions with 0-3 controls and 1-3 sensors x 1-3 readings; data matrices "
-        "of 3-12 rows [controls..., readings per sensor in key order...]; thresholds k in {None, 2, 5}; per "
+        "of 3-12 rows [controls..., readings per sensor in key order...] as float64, float32, int64, int16 arrays "
+        "or nested int lists; thresholds k in {None, 2, 5}; max_dt_sec at and away from its default; per "
         "matrix: transform vs by-hand run of export_python() (zero state, identity covariance, dt=0.1, predict "
         "then update sensors in sorted key order, NIS = y^T S^-1 y from the recorded innovation and S; the "
         "by-hand run itself is under the C04/C05 contract monitors), non-negativity, mahalanobis == flattened "
         "transform, score == 10*(mean sqrt NIS)^2 + (1/sum + sum)/2 + 0.01*sum(noise diag^2), parameters "
-        "unchanged (deep comparison), repeated call bit-identical.  non-trivial = >=2 sensors or >=2 controls "
+        "unchanged (deep comparison), repeated call bit-identical; transform(include_states=True) returns the "
+        "same NIS values and the by-hand estimates; transform -> set_params -> transform sequences.  non-trivial = >=2 sensors or >=2 controls "
         "(column slicing observable); distinct = sha256(definition, X)")
 ASSUMPTIONS = [
     "row layout: controls in name order, then each sensor's readings in sorted reading order, sensors in sorted key order",
